@@ -569,6 +569,11 @@ package resource_info
 //@ define claimMapNonNil(m map[string]*resourceapi.ResourceClaim) bool = forall k in m :: m[k] != nil
 //@ define podClaimsNonNil(m map[types.UID]map[types.UID]*resourceapi.ResourceClaim) bool = forall p in m :: forall c in m[p] :: m[p][c] != nil
 
+// frame of the pod->claims index for loops of OTHER packages that call GetDraPodClaims (their files may not import
+// k8s.io/apimachinery/pkg/types): every claim map that existed at function entry is unchanged (the index itself and
+// its inner maps are allocated after entry). `own` is the index (only there to give the define a parameter).
+//@ define draIndexFrame(own map[types.UID]map[types.UID]*resourceapi.ResourceClaim) bool = own != nil && fresh(own) && (forall p in own :: fresh(own[p])) && (forall m map[types.UID]*resourceapi.ResourceClaim :: m != nil && old(allocated(m)) ==> dom(m) == old(dom(m))) && (forall m map[types.UID]*resourceapi.ResourceClaim, k types.UID :: m != nil && old(allocated(m)) && old(k in m) ==> m[k] == old(m[k])) && (forall m map[types.UID]map[types.UID]*resourceapi.ResourceClaim :: m != nil && old(allocated(m)) ==> dom(m) == old(dom(m))) && (forall m map[types.UID]map[types.UID]*resourceapi.ResourceClaim, k types.UID :: m != nil && old(allocated(m)) && old(k in m) ==> m[k] == old(m[k]))
+
 //@ func (k8s.io/apimachinery/pkg/types.NamespacedName).String
 //@   props C12 C10
 //@   trusted
@@ -626,6 +631,7 @@ package resource_info
 //@     invariant forall m map[types.UID]map[types.UID]*resourceapi.ResourceClaim :: m != nil && old(allocated(m)) ==> dom(m) == old(dom(m))
 //@     invariant forall m map[types.UID]map[types.UID]*resourceapi.ResourceClaim, k types.UID :: m != nil && old(allocated(m)) && old(k in m) ==> m[k] == old(m[k])
 //@   ensures result != nil && podClaimsNonNil(result)
+//@   ensures [ownInnerMaps] forall p in result :: fresh(result[p])
 //@ end
 
 //@ func GetDraPodClaims
@@ -635,11 +641,13 @@ package resource_info
 //@   loop 1
 //@     invariant 0 - 1 <= rangeindex && rangeindex < len(pod.Spec.ResourceClaims)
 //@     invariant podClaimsNonNil(podsToClaimsMap)
+//@     invariant forall p in podsToClaimsMap :: (old(p in podsToClaimsMap) && podsToClaimsMap[p] == old(podsToClaimsMap[p])) || fresh(podsToClaimsMap[p])
 //@   loop 2
 //@     invariant claimsNonNil(draPodClaims)
 //@     invariant podClaimsNonNil(podsToClaimsMap)
 //@   ensures claimsNonNil(result)
 //@   ensures podClaimsNonNil(podsToClaimsMap)
+//@   ensures [innerMapsKeptOrNew] forall p in podsToClaimsMap :: (old(p in podsToClaimsMap) && podsToClaimsMap[p] == old(podsToClaimsMap[p])) || fresh(podsToClaimsMap[p])
 //@ end
 
 // ---- helper "cache": quantities of a v1.ResourceList (C14 C01 establish: node Idle == Allocatable at construction) ----
@@ -791,4 +799,12 @@ package resource_info
 //@   fresh
 //@   ensures len(result) == len(v)
 //@   ensures forall i int :: 0 <= i && i < len(v) ==> result[i] == v[i]
+//@ end
+
+//@ func (*Resource).DetailedString
+//@   props C10 C14 C01
+//@   trusted
+//@   note log-line formatting (strings.Builder + fmt.Sprintf over the resource's own fields: outside the subset); read-only, the result is only used as a log argument
+//@   requires r != nil
+//@   pure
 //@ end
